@@ -27,7 +27,9 @@ deprecation warning).  Triggers are also registered while the event is firing (f
 before/during/after triggers and while before-Deferreds are outstanding): the statement does not say
 which firing such a trigger joins, so that is counted but not judged -- judged is that it runs exactly
 once, in this firing or the next, after every earlier registration of its phase, never out of phase
-order and never while a before-Deferred is unfired.  fireEvent() is not re-entered (unspecified); Deferreds returned by during/after triggers are
+order and never while a before-Deferred is unfired.  "Unfired" means "has not delivered": before-triggers
+also return Deferreds that are already fired but whose callback chain waits on an inner unfired Deferred, or
+that are fired and pause()d (delivered later by the schedule); the gate must stay shut for those too.  fireEvent() is not re-entered (unspecified); Deferreds returned by during/after triggers are
 ignored by the implementation and by the oracle.
 """
 import gc
@@ -50,7 +52,8 @@ FLOORS = {"trigger_runs": 20000, "order_checks": 20000, "gated_firings": 1000, "
           "odd_removals_of_already_run_trigger": 1000, "odd_removals_of_own_handle": 300, "duplicate_registrations": 1000,
           "duplicate_copy_removed_via_other_handle": 15,
           "added_while_firing_before": 300, "added_while_firing_during": 300, "added_while_firing_after": 300,
-          "added_while_firing_ran_in_same_firing": 300, "added_while_firing_left_for_next_firing": 100, "flush_firings": 100}
+          "added_while_firing_ran_in_same_firing": 300, "added_while_firing_left_for_next_firing": 100, "flush_firings": 100,
+          "gated_on_fired_but_chained_deferred": 300, "gated_on_fired_and_paused_deferred": 300}
 READY = True
 PHASES = ("before", "during", "after")
 
@@ -64,7 +67,10 @@ def gen_case(rng):
         phase = rng.choice(["before", "before", "during", "after"])
         r = rng.random()
         if phase == "before":
-            kind = "defer" if r < 0.35 else "dnow" if r < 0.42 else "raise" if r < 0.55 else "ret"
+            # Deferred results: fresh unfired / fired but its callback chain waits on an inner unfired Deferred /
+            # fired (ok or failed) and pause()d / already delivered
+            kind = ("defer" if r < 0.28 else "dchain" if r < 0.35 else "dpaused" if r < 0.41 else "dnow" if r < 0.46
+                    else "raise" if r < 0.58 else "ret")
         else:
             kind = "raise" if r < 0.2 else "defer" if r < 0.28 else "ret"
         rm = [rng.randrange(24) for _ in range(rng.choice([0, 0, 0, 0, 0, 0, 0, 1, 1, 2]))]
@@ -130,7 +136,7 @@ class Monitor:
         self.present = {p: [] for p in PHASES}  # model: registered, not removed, not yet run -- registration order
         self.handles = {}
         self.ran = []  # [(id, phase)] of the current firing
-        self.outstanding = []  # [(id, Deferred, ok)] returned by before-triggers, unfired
+        self.outstanding = []  # [(id, Deferred to fire | None = unpause, returned Deferred, ok)] of before-triggers, undelivered
         self.firing = False  # between fireEvent() and the completion of the after phase
         self.in_fire_call = False
         self.dec = list(case["decisions"])
@@ -219,11 +225,23 @@ class Monitor:
         if t["kind"] == "raise":
             self.stat("raising_triggers")
             raise Boom(eid)
-        if t["kind"] == "defer":
-            d = defer.Deferred()
+        if t["kind"] in ("defer", "dchain", "dpaused"):
+            # `token` is what the trigger returns; the gate stays shut until its callback chain delivers
+            if t["kind"] == "defer" or phase != "before":
+                token = fire = defer.Deferred()
+            elif t["kind"] == "dchain":
+                fire = defer.Deferred()
+                token = defer.succeed(None)
+                token.addCallback(lambda _, inner=fire: inner)
+                self.stat("gated_on_fired_but_chained_deferred")
+            else:
+                token = defer.succeed(None) if t["ok"] else defer.fail(Boom("paused deferred %d" % eid))
+                token.pause()
+                fire = None  # delivered by token.unpause()
+                self.stat("gated_on_fired_and_paused_deferred")
             if phase == "before":
-                self.outstanding.append((eid, d, t["ok"]))
-            return d
+                self.outstanding.append((eid, fire, token, t["ok"]))
+            return token
         if t["kind"] == "dnow":
             self.stat("already_fired_deferreds")
             return defer.succeed(eid)
@@ -350,12 +368,17 @@ class Monitor:
             self.check_complete("fireEvent")
 
     def do_fire_deferred(self, k):
-        tid, d, ok = self.outstanding.pop(k % len(self.outstanding))
-        self.events.append(("fire-deferred", tid, ok))
+        tid, fire, d, ok = self.outstanding.pop(k % len(self.outstanding))
+        self.events.append(("fire-deferred" if fire is not None else "unpause-deferred", tid, ok))
         if not ok:
             self.stat("deferreds_fired_failed")
         try:
-            d.callback(None) if ok else d.errback(Boom("deferred %d" % tid))
+            if fire is None:
+                d.unpause()
+            elif ok:
+                fire.callback(None)
+            else:
+                fire.errback(Boom("deferred %d" % tid))
         except Exception as e:  # noqa: BLE001
             self.fail("fire-raised", "firing a before-trigger's Deferred raised %s: %s" % (type(e).__name__, e))
         d.addErrback(lambda f: None)
